@@ -20,6 +20,10 @@ pub struct Chunked<'a> {
     pub total: u64,
     pub short_hits: u64,
     pub armed: bool,
+    /// fail the k-th I/O operation (read or seek) with a hard error
+    pub fault_at: Option<u64>,
+    pub ops: u64,
+    pub faulted: Option<(u64, &'static str)>,
 }
 impl<'a> Chunked<'a> {
     pub fn new(b: &'a [u8], plan: &Value) -> Chunked<'a> {
@@ -32,11 +36,20 @@ impl<'a> Chunked<'a> {
             total: 0,
             short_hits: 0,
             armed: true,
+            fault_at: plan.get("fault_at").and_then(|x| x.as_u64()),
+            ops: 0,
+            faulted: None,
         }
     }
 }
 impl<'a> Read for Chunked<'a> {
     fn read(&mut self, buf: &mut [u8]) -> std::io::Result<usize> {
+        let k = self.ops;
+        self.ops += 1;
+        if self.fault_at == Some(k) {
+            self.faulted = Some((k, "read"));
+            return Err(std::io::Error::new(std::io::ErrorKind::Other, "injected fault"));
+        }
         let mut want = buf.len();
         if self.armed {
             if self.max > 0 {
@@ -62,6 +75,12 @@ impl<'a> Read for Chunked<'a> {
 }
 impl<'a> Seek for Chunked<'a> {
     fn seek(&mut self, p: SeekFrom) -> std::io::Result<u64> {
+        let k = self.ops;
+        self.ops += 1;
+        if self.fault_at == Some(k) {
+            self.faulted = Some((k, "seek"));
+            return Err(std::io::Error::new(std::io::ErrorKind::Other, "injected fault"));
+        }
         self.cur.seek(p)
     }
 }
